@@ -81,6 +81,8 @@ class _Ctx:
         self.linalg_faults = [{"kind": "linalg", "fn": "eigh", "at": f["at"]} for f in faults if f["kind"] == "linalg"]
         self.linalg_calls = {}
         self.eval_idx = 0
+        self.poison = None
+        self.poison_calls = 0
         self.knobs = []
         self.fired = {}
         self.events = []
